@@ -49,6 +49,7 @@ pub fn all_vals(ty: &Ty) -> Vec<Val> {
             let parts: Vec<Vec<Val>> = ts.iter().map(all_vals).collect();
             cart(&parts).into_iter().map(Val::Tuple).collect()
         }
+        Ty::Array(_, 0) => vec![Val::Array(vec![])],
         Ty::Array(t, n) => {
             let el = all_vals(t);
             let parts: Vec<Vec<Val>> = (0..*n).map(|_| el.clone()).collect();
